@@ -14,6 +14,7 @@ type sampler struct {
 	out   []byte
 	nodes int
 	hs    []*Expr // enclosing recovery operators
+	done  []*Expr // recovery operators whose guarded expression was already sampled
 }
 
 func (s *sampler) intn(lo, hi int, l string) int { return lo + U(s.t, hi-lo+1, l) }
@@ -133,6 +134,7 @@ func (s *sampler) walk(e *Expr, depth int) {
 		s.hs = append(s.hs, e)
 		s.walk(e.Sub[0], depth)
 		s.hs = s.hs[:len(s.hs)-1]
+		s.done = append(s.done, e)
 	case KThrow:
 		// continue with what the innermost handler of the label expects (sometimes with the
 		// next outer one, so that the inner handler has to fail first)
@@ -156,6 +158,18 @@ func (s *sampler) walk(e *Expr, depth int) {
 				s.walk(s.hs[i].Sub[1], depth+1)
 			}
 			return
+		}
+		// no handler in force: sometimes continue with what a handler that is no longer in
+		// force would have expected (the throw must fail all the same)
+		if len(s.done) > 0 && s.intn(0, 1, "stalehandler") == 1 && depth < 10 {
+			for i := len(s.done) - 1; i >= 0; i-- {
+				for _, l := range s.done[i].Labels {
+					if l == e.Name {
+						s.walk(s.done[i].Sub[1], depth+1)
+						return
+					}
+				}
+			}
 		}
 		if s.intn(0, 1, "throwjunk") == 1 {
 			s.out = utf8.AppendRune(s.out, s.rune_())
